@@ -131,12 +131,17 @@ variable {R : Type}
 inductive Kind | user | predicted
   deriving DecidableEq, Repr
 
+/-- What the datasets observe of one `sio.Instance`: its exact type, `inst.numpy()` and
+`inst.is_empty`.  (Nothing else of an instance is read — tied to the code by the correspondence.) -/
 structure Inst (R : Type) where
   kind : Kind
+  /-- `inst.numpy()` -/
   pts : List (Pt R)
+  /-- `inst.is_empty` -/
+  empty : Bool
 
-/-- sleap-io `Instance.is_empty`: no visible point -/
-def Inst.isEmpty (i : Inst R) : Bool := i.pts.all Pt.invisible
+/-- sleap-io `Instance.is_empty`: no node is flagged visible -/
+def Inst.isEmpty (i : Inst R) : Bool := i.empty
 
 structure Frame (R : Type) where
   frameIdx : Nat
@@ -146,6 +151,53 @@ structure Frame (R : Type) where
   insts : List (Inst R)
 
 def Inst.isUser (i : Inst R) : Bool := i.kind == Kind.user
+
+/-! ### the stored representation of a label (sleap-io `PointsArray`)
+
+A node is stored as coordinates **and** a `visible` flag.  A keypoint is *missing* iff it is not
+flagged visible **or** its stored coordinates are NaN: `Instance.numpy()` returns NaN for a node
+that is not visible whatever is stored, so a missing node has (at least) the two representations
+`(NaN, not visible)` — what `Instance.from_numpy` stores — and `(finite xy, not visible)` — a
+node hidden after it was placed. -/
+
+structure Node (R : Type) where
+  xy : Pt R
+  visible : Bool
+
+/-- one row of `Instance.numpy()`: `np.where(visible, xy, nan)` -/
+def Node.pt (n : Node R) : Pt R := if n.visible then n.xy else Pt.nan
+
+structure RawInst (R : Type) where
+  kind : Kind
+  nodes : List (Node R)
+
+/-- **labelPts**: the label's keypoints as the property means them (`Instance.numpy()`) -/
+def RawInst.labelPts (r : RawInst R) : List (Pt R) := r.nodes.map Node.pt
+
+/-- what the datasets observe of a stored instance: type, `numpy()`, `is_empty`
+(`~points["visible"].any()`) -/
+def RawInst.abs (r : RawInst R) : Inst R :=
+  ⟨r.kind, r.labelPts, r.nodes.all (fun n => !n.visible)⟩
+
+structure RawFrame (R : Type) where
+  frameIdx : Nat
+  videoIdx : Nat
+  H : Nat
+  W : Nat
+  insts : List (RawInst R)
+
+def RawFrame.abs (f : RawFrame R) : Frame R :=
+  ⟨f.frameIdx, f.videoIdx, f.H, f.W, f.insts.map RawInst.abs⟩
+
+/-- a label set *up to the representation of missing nodes*: per instance its type and
+`labelPts`, per frame the indices and size -/
+def RawFrame.view (f : RawFrame R) : Nat × Nat × Nat × Nat × List (Kind × List (Pt R)) :=
+  (f.frameIdx, f.videoIdx, f.H, f.W, f.insts.map fun r => (r.kind, r.labelPts))
+
+/-- the flags agree with the coordinates the way sleap-io's own constructors guarantee: a node
+flagged visible stores at least one coordinate -/
+def RawInst.WellFlagged (r : RawInst R) : Prop :=
+  ∀ n ∈ r.nodes, n.visible = true → n.xy.invisible = false
 
 /-- `if user_instances_only and len(lf.user_instances) > 0: lf.instances = lf.user_instances`
 (a frame with only predicted instances keeps them). -/
